@@ -41,6 +41,7 @@ def main():
         print(json.dumps({"configurations": [], "errors": [], "skipped": "tlc is not on PATH"}))
         sys.exit(0)
     configs = CONFIGS[:4] if "--quick" in args else CONFIGS
+    limit = 120 if "--quick" in args else 900
     work = tempfile.mkdtemp(prefix="tlc-twin-", dir=os.environ.get("JBKMC_SCRATCH_ROOT") or "/dev/shm")
     results, errors = [], []
     try:
@@ -55,10 +56,10 @@ def main():
             # TLC and SANY unpack their standard modules into java.io.tmpdir: keep that inside the scratch area
             env = dict(os.environ, JAVA_TOOL_OPTIONS="-Djava.io.tmpdir=" + work)
             try:
-                p = subprocess.run(["tlc", "-workers", "4", "-metadir", os.path.join(work, "states" + str(k)), mc + ".tla"], cwd=work, env=env, capture_output=True, text=True, timeout=900)
+                p = subprocess.run(["tlc", "-workers", "4", "-metadir", os.path.join(work, "states" + str(k)), mc + ".tla"], cwd=work, env=env, capture_output=True, text=True, timeout=limit)
             except subprocess.TimeoutExpired:
                 # a machine too busy to finish TLC in time: no comparison for this configuration, not an error
-                results.append({"chunks": chunks, "avail": avail, "ops": ops, "skipped": "TLC did not finish within 900 s"})
+                results.append({"chunks": chunks, "avail": avail, "ops": ops, "skipped": f"TLC did not finish within {limit} s"})
                 continue
             out = p.stdout + p.stderr
             # the last such line is the final count (a slow run also prints progress lines)
